@@ -11,8 +11,10 @@
 (R) every history TLC prints is executed on the real provider of that kind and cache
     setting over generated template files; after EVERY request every template handed
     out so far is inspected through its parse trees (not executed: an executed html
-    template cannot be cloned) and compared; views are finally executed and their
-    output compared.  Concurrent first use runs in a SUBPROCESS (a runtime map fault
+    template cannot be cloned) and compared; every VIEW is rendered as soon as it has been
+    handed out (as a caller does) and again at the end.  Layouts whose file does not parse
+    (lbad): every request through them must fail, the first time and every time, cached or
+    not (BadAlwaysFails; the "cachefail" variant that remembers the failed load must violate it).  Concurrent first use runs in a SUBPROCESS (a runtime map fault
     kills the process): 16 goroutines released together x 300 trials on both providers."""
 import json, subprocess
 import vlib
